@@ -68,16 +68,19 @@ Hypothesis load_const : forall t p w lt, load t p w = Ok lt -> qk lt = KTorque /
 Definition Rr : R := prodR (ratios c).
 Definition Gg : R := gainR (c_elems c).
 
+(** the maximum torque at duty cycle D outside the dead zone, for either sign of D (documented characteristic, C08) *)
+Definition TDs (D : R) : R := if Rlt_dec 0 D then TM * ((D * IM - I0) / (IM - I0)) else TM * ((D * IM + I0) / (IM - I0)).
+
 Theorem instant_acceleration_SI ctl J t f v locked prov (s : @snap RA) JJ wl w :
   instant_facts c load ctl J t f v locked prov s -> s_locked s = false ->
   si J = Ok JJ -> qk J = KInertiaMoment ->
   lastq (s_spd s) = Ok wl -> si wl = Ok w ->
-  I0 / IM < s_pwm s ->
+  0 <= I0 / IM -> I0 / IM < Rabs (s_pwm s) ->
   let D := s_pwm s in
-  let TD := TM * ((D * IM - I0) / (IM - I0)) in
+  let TD := TDs D in
   exists a, lastq (s_acc s) = Ok a /\ si a = Ok ((TD * (1 - Rr * w / (D * W0)) * Gg - L) / JJ).
 Proof.
-  intros Hf Hlk sJ kJ Hwl sw HD. cbv zeta. remember (s_pwm s) as D eqn:ED.
+  intros Hf Hlk sJ kJ Hwl sw Hp0 HD. cbv zeta. remember (s_pwm s) as D eqn:ED.
   (* speeds *)
   destruct (if_spd1 _ _ _ _ _ _ _ _ _ _ Hf) as (spd1 & spd0 & Hb & Hh0 & _ & Hs). rewrite Hlk in Hs.
   destruct (back_prop_spec _ _ _ Hb) as (Hlink & Hlast & _). rewrite Hs in Hwl. rewrite Hlast in Hwl. injection Hwl as Hwl.
@@ -102,8 +105,11 @@ Proof.
   exists a. split; [apply (back_prop_spec _ _ _ Hba)|]. rewrite sa. f_equal.
   rewrite <- ED in *. unfold T_doc, pmin.
   destruct (Rle_dec (Rabs D) (I0 / IM)) as [Habs|Habs].
-  - exfalso. assert (D <= Rabs D) by apply Rle_abs. lra.
-  - destruct (Rlt_dec (I0 / IM) D); [|lra]. unfold Rr, Gg. reflexivity.
+  - exfalso. lra.
+  - unfold TDs. destruct (Rlt_dec (I0 / IM) D) as [Hgt|Hngt].
+    + destruct (Rlt_dec 0 D); [|lra]. unfold Rr, Gg. reflexivity.
+    + destruct (Rlt_dec 0 D) as [Hpos'|_]; [|unfold Rr, Gg; reflexivity].
+      exfalso. rewrite Rabs_right in Habs by lra. lra.
 Qed.
 
 (** one step, in SI *)
@@ -128,9 +134,9 @@ Hypothesis HJ : equivalent_inertia c = Ok J.
 Hypothesis sJ : si J = Ok JJ.
 Hypothesis kJ : qk J = KInertiaMoment.
 Hypothesis sdt : si dt0 = Ok DT.
-Hypothesis HD : I0 / IM < D.
+Hypothesis HD : I0 / IM < Rabs D.
 Hypothesis Hpos : 0 <= I0 /\ 0 < IM /\ 0 < W0 /\ 0 < JJ.
-Let TD := TM * ((D * IM - I0) / (IM - I0)).
+Let TD := TDs D.
 (** the coefficients of  w' = A - kap w  for the output element *)
 Definition A_lin : R := (TD * Gg - L) / JJ.
 Definition kap_lin : R := TD * Gg * Rr / (D * W0 * JJ).
@@ -158,16 +164,18 @@ Proof.
     destruct (Hu' t1 s1 (or_introl eq_refl)) as (Hlk1 & Hpw1 & _).
     assert (Edt : dt = dt0) by (destruct Hdt2 as [Hn|Hs]; congruence). subst dt.
     (* acceleration of s1 *)
+    assert (Hpmin : 0 <= I0 / IM).
+    { destruct Hpos as (H1 & H2 & _). apply Rmult_le_pos; [lra|left; apply Rinv_0_lt_compat; lra]. }
     destruct (hist_ok_in _ _ _ _ _ Hh' (or_introl eq_refl)) as (v & ctl & J' & f & locked & prov & HJ' & _ & Hf1).
     rewrite HJ in HJ'. injection HJ' as <-.
-    destruct (instant_acceleration_SI ctl J t1 f v locked prov s1 JJ wk _ Hf1 Hlk1 sJ kJ Hwk swk ltac:(rewrite Hpw1; exact HD)) as (a1 & Ha1 & sa1).
+    destruct (instant_acceleration_SI ctl J t1 f v locked prov s1 JJ wk _ Hf1 Hlk1 sJ kJ Hwk swk Hpmin ltac:(rewrite Hpw1; exact HD)) as (a1 & Ha1 & sa1).
     destruct (step_ok_SI dt0 s1 s2 DT a1 wk pk _ _ _ (stepped_step_ok _ _ _ _ _ _ Hst) Hlk2 sdt Ha1 Hwk Hpk sa1 swk spk) as (w' & p' & Hw' & Hp' & sw' & sp').
     exists w', p'. split; [exact Hw'|]. split; [exact Hp'|].
     cbn [length C04Core.euler]. destruct (C04Core.euler A_lin kap_lin DT W00 P00 (length h')) as [th w] eqn:Ee. cbn [fst snd] in *.
     rewrite Hpw1 in sw', sp'. fold TD in sw', sp'.
     assert (Ealg : w + (TD * (1 - Rr * w / (D * W0)) * Gg - L) / JJ * DT = w + (A_lin - kap_lin * w) * DT).
     { unfold A_lin, kap_lin. assert (D <> 0 /\ W0 <> 0 /\ JJ <> 0) as (HD0 & HW0 & HJ0).
-      { destruct Hpos as (H1 & H2 & H3 & H4). assert (0 <= I0 / IM) by (apply Rmult_le_pos; [lra|left; apply Rinv_0_lt_compat; lra]). repeat split; lra. }
+      { destruct Hpos as (H1 & H2 & H3 & H4). repeat split; try lra. intros E0. assert (HD' := HD). rewrite E0, Rabs_R0 in HD'. lra. }
       field. auto. }
     rewrite Ealg in sw', sp'. split; [exact sw'|exact sp'].
 Qed.
